@@ -58,9 +58,10 @@ Proof. intros H. apply (split_join_free 124 [f2; f3; f4; f5; f6; f7; f8; f9] f1 
 (* F6: the full statement decode (encode m) = Some m is false. Four witnesses. *)
 Definition m0 (resph : hdrs) : meta := mkMeta (bytes "h") (bytes "/p") [] resph 200 [] 1 0 3.
 
-Lemma C07_refuted_two_values :
+(* since fix F6-multi-valued: every value of a repeated name is kept, in order *)
+Lemma C07_two_values_kept :
   decode_meta (encode_meta (m0 [(bytes "Set-Cookie", [bytes "a=1"; bytes "b=2"])]))
-  = Some (m0 [(bytes "Set-Cookie", [bytes "a=1"])]).
+  = Some (m0 [(bytes "Set-Cookie", [bytes "a=1"; bytes "b=2"])]).
 Proof. vm_compute. reflexivity. Qed.
 
 Lemma C07_refuted_brackets :
